@@ -1,14 +1,19 @@
-use mithril_stm::Parameters;
-use vh_common::stmkit::World;
+use mithril_common::crypto_helper::{MKMap, MKMapNode, MKTree, MKTreeNode, MKTreeStoreInMemory};
+use mithril_common::entities::BlockRange;
 fn main() {
-    let mut rng = vh_core::rng(1, 1);
-    let params = Parameters { m: 6, k: 2, phi_f: 0.8 };
-    let w = World::new(params, &[10, 20, 30], &mut rng);
-    let msg = [7u8; 16];
-    let sigs: Vec<_> = w.signers.iter().filter_map(|s| s.create_single_signature(&msg).ok()).collect();
-    println!("SIG {}", serde_json::to_string(&sigs[0]).unwrap());
-    let agg = w.aggregate(&sigs, &msg).unwrap();
-    println!("AGG {}", serde_json::to_string(&agg).unwrap());
-    println!("AVK {}", serde_json::to_string(w.avk.to_concatenation_aggregate_verification_key()).unwrap());
-    println!("verify {:?}", w.verify(&agg, &msg, &params).is_ok());
+    let leaves: Vec<MKTreeNode> = (0..5).map(|i| format!("leaf-{i}").into()).collect();
+    let t = MKTree::<MKTreeStoreInMemory>::new(&leaves).unwrap();
+    let p = t.compute_proof(&leaves[1..3]).unwrap();
+    println!("MKPROOF {}", serde_json::to_string(&p).unwrap());
+    let entries: Vec<(BlockRange, MKMapNode<BlockRange, MKTreeStoreInMemory>)> = (0..3u64)
+        .map(|r| {
+            let ls: Vec<MKTreeNode> = (0..3).map(|i| format!("r{r}-leaf-{i}").into()).collect();
+            (BlockRange::from_block_number(mithril_common::entities::BlockNumber(r * 15)), MKTree::<MKTreeStoreInMemory>::new(&ls).unwrap().into())
+        })
+        .collect();
+    let m = MKMap::<_, _, MKTreeStoreInMemory>::new(&entries).unwrap();
+    let q: Vec<MKTreeNode> = vec!["r0-leaf-1".into(), "r2-leaf-0".into()];
+    let mp = m.compute_proof(&q).unwrap();
+    println!("MKMAPPROOF {}", serde_json::to_string(&mp).unwrap());
+    println!("root {}", m.compute_root().unwrap().to_hex());
 }
